@@ -20,11 +20,15 @@ RULE = ('two parts. (a) EXHAUSTIVE sub-space (the "exhaustive: true" flag refers
         'over the shards and required() verifies that the number of enumerated cases equals the size of the space. '
         '(b) seeded random cases: endpoints are raw reals with 1..5000-bit mantissas and exponents up to +-10^18, +-inf, '
         'forced equal / adjacent endpoints (touching, nested, identical, point), number operands exactly representable. '
+        '(c) float / int / decimal-string numbers that are NOT representable at iv.prec (iv.prec in 5..60 and 100) against intervals whose '
+        'endpoints are the neighbours of the number at iv.prec, both operand orders: accepted are the verdict for the exact number or None '
+        '(order relations), the verdict for the exact number or for its outward enclosure (== != in). '
         'A case is non-trivial unless the operands are strictly disjoint with four finite endpoints; '
         'distinct = distinct (operator, left operand, right operand, construction route)')
 ASSUMPTIONS = ['intervals are closed sets of extended reals (an infinite endpoint is a member point), as in the endpoint tests of the code and docs',
                'exactq.cmp (Python int comparison) is correct; the finite lattice decides the definition because the relations depend on order only',
-               'numbers outside the envelope (not exactly representable at iv.prec; Fraction/mpq, which iv cannot convert) are observed, not asserted']
+               'a number operand denotes the single exact number; the code converts it to its outward enclosure first, which may only weaken True/False to None',
+               'Fraction/mpq operands, which the interval context cannot convert, are observed, not asserted']
 LEVEL_TEXT = ('exhaustive over the 7-value endpoint grid (definition evaluated over member points) + exploration: ~10^5 (quick) / '
               '~2*10^6 (thorough) random big-endpoint comparisons decided by exact rational comparison of endpoints')
 LEVEL_NOTE = 'exhaustive only for the stated grid sub-space; elsewhere held on what was generated; trusted base vf/exactq.cmp'
@@ -82,9 +86,13 @@ def definition(op, S, T):
 # ---------------------------------------------------------------------------------------
 # oracle 2: endpoint formulas over exact comparison
 # ---------------------------------------------------------------------------------------
+def _val(a):
+    return Q.from_raw(a) if isinstance(a, tuple) else a
+
+
 def cmpx(a, b):
-    """exact three-way comparison of two raw extended reals (no nan)"""
-    A, B = Q.from_raw(a), Q.from_raw(b)
+    """exact three-way comparison of two extended reals given as raw tuples or exact values (Ex, possibly rational; no nan)"""
+    A, B = _val(a), _val(b)
     ra = {Q.NINF: -1, Q.PINF: 1}.get(A, 0) if Q.is_special(A) else 0
     rb = {Q.NINF: -1, Q.PINF: 1}.get(B, 0) if Q.is_special(B) else 0
     if Q.is_special(A) or Q.is_special(B):
@@ -160,8 +168,19 @@ def _ctx():
     return mpmath.mp, mpmath.iv
 
 
+class Inexact(object):
+    """a number operand that is not representable at iv.prec: its exact value and its outward enclosure at iv.prec"""
+
+    def __init__(self, exact, enclosure):
+        self.exact = exact
+        self.enclosure = enclosure
+
+    def point(self):
+        return (self.exact, self.exact)
+
+
 def build(mp, iv, d):
-    """operand description -> (object, kind label, exact endpoints (raw, raw) or None when outside the envelope)"""
+    """operand description -> (object, kind label, exact endpoints (raw, raw) | Inexact)"""
     k = d['kind']
     if k == 'iv':
         a, b = tuple(d['a']), tuple(d['b'])
@@ -174,27 +193,22 @@ def build(mp, iv, d):
     if k == 'mpf':
         raw = tuple(d['raw'])
         return mp.make_mpf(raw), 'mpf', (raw, raw)
-    if k == 'int':
+    if k in ('int', 'float', 'str'):
         v = d['v']
-        raw = Q.canon(1 if v < 0 else 0, abs(v), 0)
-        ok = raw[3] <= iv.prec
-        return v, 'int', (raw, raw) if ok else None
-    if k == 'float':
-        v = d['v']
-        E = Q.from_float(v)
-        raw = Q.raw_of_special(E) if Q.is_special(E) else Q.exact_raw(E)
-        ok = raw[3] <= iv.prec
-        return v, 'float', (raw, raw) if ok else None
-    if k == 'str':
-        s = d['v']
-        E = Q.parse_decimal(s)
+        if k == 'int':
+            E = Q.Ex(v)
+        elif k == 'float':
+            E = Q.from_float(v)
+        else:
+            E = Q.parse_decimal(v)
         if Q.is_special(E):
             raw = Q.raw_of_special(E)
-            ok = True
-        else:
-            ok = Q.fits(E, iv.prec)
-            raw = Q.exact_raw(E) if ok else None
-        return s, 'str', (raw, raw) if ok else None
+            return v, k, (raw, raw)
+        if Q.fits(E, iv.prec):
+            raw = Q.exact_raw(E)
+            return v, k, (raw, raw)
+        # not representable at iv.prec: exact value + the outward-rounded enclosure the documented conversion produces
+        return v, k, Inexact(E, (Q.round_to(E, iv.prec, 'f'), Q.round_to(E, iv.prec, 'c')))
     raise ValueError(k)
 
 
@@ -217,8 +231,8 @@ def run_case(mp, iv, rec, desc, want=None, part='random'):
         x, kx, ex = build(mp, iv, desc['l'])
         y, ky, ey = build(mp, iv, desc['r'])
         kinds = kx + '-' + ky
-        if ex is None or ey is None:
-            rec.cls('outside-envelope/' + kinds)
+        if isinstance(ex, Inexact) or isinstance(ey, Inexact):
+            run_inexact(rec, desc, op, x, y, ex, ey, kinds)
             return
         if want is not None and (ex != want[1] or ey != want[2]):
             # construction did not give the intended grid interval: a harness/constructor matter, not a comparison verdict
@@ -251,6 +265,43 @@ def run_case(mp, iv, rec, desc, want=None, part='random'):
                           desc, observed=repr(got), expected=repr(exp))
     finally:
         iv.prec = old
+
+
+def run_inexact(rec, desc, op, x, y, ex, ey, kinds):
+    """a number operand that is not representable at iv.prec.  The statement speaks about member points: the member set of a
+    number is the single exact number.  The code converts the number to the outward-rounded interval first, which can only turn
+    a definite answer into None (always sound) -- and, for == / != / in, compares with that enclosure.  Accepted therefore:
+      order relations   the verdict for the exact number, or None
+      == != in          the verdict for the exact number, or the verdict for the outward enclosure at iv.prec
+    anything else (a definite True/False that is wrong for the exact number and for its enclosure) is a violation."""
+    px = ex.point() if isinstance(ex, Inexact) else ex
+    py = ey.point() if isinstance(ey, Inexact) else ey
+    cx = ex.enclosure if isinstance(ex, Inexact) else ex
+    cy = ey.enclosure if isinstance(ey, Inexact) else ey
+    exact_v = formula(op, px, py)
+    encl_v = formula(op, cx, cy)
+    if op in _REL:
+        if encl_v is not None and encl_v is not exact_v:
+            raise AssertionError('harness: enclosure verdict contradicts the exact verdict')
+        accepted = [exact_v, None]
+    else:
+        accepted = [exact_v, encl_v]
+    near = 'endpoint-within-enclosure' if any(cmpx(cx[0] if isinstance(ex, Inexact) else cy[0], e) <= 0 and cmpx(e, cx[1] if isinstance(ex, Inexact) else cy[1]) <= 0
+                                               for e in (py if isinstance(ex, Inexact) else px)) else 'endpoints-elsewhere'
+    rec.case(repr((op, desc['l'], desc['r'], desc['prec'])), True, cls='%s/inexact-number/%s/accept:%s' % (OPNAME[op], near, '|'.join(sorted(set(map(str, accepted))))))
+    rec.cls('operands:' + kinds + ':inexact')
+    rec.cls('part:inexact-number')
+    group = 'order' if op in _REL else ('in' if op == 'in' else 'eqne')
+    try:
+        got = apply(op, x, y)
+    except Exception as e:
+        rec.violation('C16/raises/%s/%s/%s' % (group, kinds, type(e).__name__),
+                      'comparison %s between %s raises instead of returning a verdict' % (op, kinds), desc, observed=repr(e), expected=repr(accepted))
+        return
+    if not any(got is a for a in accepted):
+        rec.violation('C16/%s/inexact-number/%s' % (OPNAME[op], kinds),
+                      'comparison %s with a number that is not representable at iv.prec gives %r; for the exact number it is %r (for its outward enclosure %r)'
+                      % (op, got, exact_v, encl_v), desc, observed=repr(got), expected=' or '.join(map(repr, accepted)))
 
 
 # ---------------------------------------------------------------------------------------
@@ -362,6 +413,61 @@ def random_case(r):
     return l, rr, p
 
 
+INEXACT_PRECS = list(range(5, 61)) + [100]
+DECIMALS = ['0.1', '-0.1', '0.3', '3.3', '-2.675', '1e-5', '123456789.123', '0.7', '1.1', '-9.99', '2.5e10', '1e23', '0.000123', '-1e-9', '33.33', '0.2']
+
+
+def inexact_case(r):
+    """(left, right, prec): a float / int / decimal-string number that is NOT representable at iv.prec against an interval whose
+    endpoints are the neighbours of the number at iv.prec (its outward enclosure, one step further out, the number itself)"""
+    P = r.choice(INEXACT_PRECS)
+    kind = r.choice(['float', 'float', 'int', 'int', 'str'])
+    while True:
+        if kind == 'float':
+            if P >= 53:
+                kind = 'int'
+                continue
+            m = ((1 << 52) | r.getrandbits(52) | 1) if r.random() < 0.7 else G.mantissa(r, r.randint(P + 1, 53))
+            v = float(m) * 2.0 ** r.randint(-200, 100) * r.choice([1, -1])
+            E = Q.from_float(v)
+            nd = {'kind': 'float', 'v': v}
+        elif kind == 'int':
+            b = r.choice([P + 1, P + 2, 2 * P, 53, 54, 64, 200, P + r.randint(1, 40)])
+            v = r.choice([1, -1]) * (G.mantissa(r, b) << r.choice([0, 0, 0, 1, 5]))
+            E = Q.Ex(v)
+            nd = {'kind': 'int', 'v': v}
+        else:
+            v = r.choice(DECIMALS)
+            E = Q.parse_decimal(v)
+            nd = {'kind': 'str', 'v': v}
+        if not Q.fits(E, P):
+            break
+    xl, xh = Q.round_to(E, P, 'f'), Q.round_to(E, P, 'c')
+
+    def step(t, up):
+        sign, man, exp, bc = t
+        # next P-bit neighbour away from / towards zero is found by +-1 in the last place of the P-bit mantissa
+        m = man << (P - bc)
+        e = exp - (P - bc)
+        val = (-m if sign else m) + (1 if up else -1)
+        return Q.canon(1 if val < 0 else 0, abs(val), e) if val else Q.fzero
+    cands = [xl, xh, step(xl, False), step(xh, True), fninf, finf, step(step(xl, False), False), step(step(xh, True), True)]
+    if E.d == 1:
+        cands.append(Q.exact_raw(E))          # the number itself as an (over-long) endpoint
+        cands.append(Q.exact_raw(Q.add(E, Q.Ex(r.choice([1, -1]), 1, E.e - 3))))
+    uniq = []
+    for v_ in sorted(cands, key=functools.cmp_to_key(cmpx)):
+        if not uniq or cmpx(uniq[-1], v_) != 0:
+            uniq.append(v_)
+    w = [4 if c in (xl, xh) else 1 for c in uniq]
+    i = r.choices(range(len(uniq)), w)[0]
+    j = r.choices(range(len(uniq)), w)[0]
+    if i > j:
+        i, j = j, i
+    ivd = {'kind': 'iv', 'a': uniq[i], 'b': uniq[j], 'via': 'raw'}
+    return nd, ivd, P
+
+
 def run_shard(shard, rec):
     mp, iv = _ctx()
     r = G.rng(PROP, shard['seed'], shard['shard'])
@@ -384,6 +490,13 @@ def run_shard(shard, rec):
                 if op == 'in' and rr['kind'] != 'iv':
                     continue
                 run_case(mp, iv, rec, {'op': op, 'l': l, 'r': rr, 'prec': p})
+        # (c) numbers that are not representable at iv.prec, against intervals hugging them
+        for i in range(shard['n'] // 2):
+            nd, ivd, P = inexact_case(r)
+            for op in OPS:
+                run_case(mp, iv, rec, {'op': op, 'l': nd, 'r': ivd, 'prec': P})
+                if op != 'in':
+                    run_case(mp, iv, rec, {'op': op, 'l': ivd, 'r': nd, 'prec': P})
     rec.event('comparison results decided', rec.evals)
     # observed, not asserted: operand types the interval context cannot convert
     if shard['shard'] == 0:
@@ -414,6 +527,14 @@ def required(agg, tier):
     for cfg in ('touching', 'nested', 'identical', 'overlap', 'disjoint', 'point-on-endpoint', 'point-inside', 'nested-shared-endpoint'):
         if not any(k.endswith('/' + cfg) for k in agg['classes']):
             miss.append('no %s configuration observed' % cfg)
+    if not agg['classes'].get('part:inexact-number'):
+        miss.append('no comparison with a number that is not representable at iv.prec')
+    for k in ('float', 'int', 'str'):
+        for side in ('%s-iv:inexact', 'iv-%s:inexact'):
+            if not agg['classes'].get('operands:' + side % k):
+                miss.append('no inexact-number case with operands ' + side % k)
+    if not any('/inexact-number/endpoint-within-enclosure/' in c for c in agg['classes']):
+        miss.append('no inexact-number case with an interval endpoint inside the enclosure of the number')
     if not agg['classes'].get('part:random'):
         miss.append('no random big-endpoint case')
     return miss
